@@ -35,3 +35,62 @@ pub assume_specification [String::as_bytes] (s: &String) -> (r: &[u8]) ensures r
 // R19: `Cow<[u8]> == &[u8]` (Cow is modelled as Vec<u8>, R18) compares the byte contents
 #[verifier::external_body]
 pub fn __cow_eq_slice(a: Vec<u8>, b: &[u8]) -> (r: bool) ensures r == (a@ == b@) { &a[..] == b }
+
+// ---- regex / wildmatch crates: opaque types whose matching semantics is ASSUMED (uninterpreted languages).
+// What the proofs establish is which pattern text and which candidate bytes scrut hands to them.
+#[verifier::external_body]
+pub struct ByteRegex { _p: () }
+pub type Regex = ByteRegex;
+pub uninterp spec fn regex_lang(pattern: Seq<char>, candidate: Seq<u8>) -> bool;
+impl ByteRegex {
+    pub uninterp spec fn pattern(&self) -> Seq<char>;
+    #[verifier::external_body]
+    pub fn new(p: &str) -> (r: anyhow::Result<ByteRegex>) ensures r is Ok ==> r->Ok_0.pattern() == p@ { unimplemented!() }
+    #[verifier::external_body]
+    pub fn is_match(&self, haystack: &[u8]) -> (r: bool) ensures r == regex_lang(self.pattern(), haystack@) { unimplemented!() }
+}
+#[verifier::external_body]
+pub struct WildMatch { _p: () }
+pub uninterp spec fn wild_lang(pattern: Seq<char>, candidate: Seq<char>) -> bool;
+impl WildMatch {
+    pub uninterp spec fn pattern(&self) -> Seq<char>;
+    #[verifier::external_body]
+    pub fn new(p: &str) -> (r: WildMatch) ensures r.pattern() == p@ { unimplemented!() }
+    #[verifier::external_body]
+    pub fn matches(&self, input: &str) -> (r: bool) ensures r == wild_lang(self.pattern(), input@) { unimplemented!() }
+}
+// String::from_utf8_lossy(..).to_string()  (macro lossy_string!)
+pub uninterp spec fn lossy(b: Seq<u8>) -> Seq<char>;
+#[verifier::external_body]
+pub fn __lossy(b: &[u8]) -> (r: String) ensures r@ == lossy(b@) { String::from_utf8_lossy(b).to_string() }
+
+// ---- R28: str predicates with a literal argument (std's versions are generic over the unstable `Pattern` trait)
+pub open spec fn is_prefix_of(p: Seq<char>, s: Seq<char>) -> bool { p.len() <= s.len() && s.subrange(0, p.len() as int) == p }
+pub open spec fn is_suffix_of(p: Seq<char>, s: Seq<char>) -> bool { p.len() <= s.len() && s.subrange(s.len() - p.len(), s.len() as int) == p }
+#[verifier::external_body]
+pub fn __str_starts_with_char(s: &str, c: char) -> (r: bool) ensures r == (s@.len() > 0 && s@[0] == c) { s.starts_with(c) }
+#[verifier::external_body]
+pub fn __str_ends_with_char(s: &str, c: char) -> (r: bool) ensures r == (s@.len() > 0 && s@.last() == c) { s.ends_with(c) }
+#[verifier::external_body]
+pub fn __str_starts_with_str(s: &str, p: &str) -> (r: bool) ensures r == is_prefix_of(p@, s@) { s.starts_with(p) }
+#[verifier::external_body]
+pub fn __str_ends_with_str(s: &str, p: &str) -> (r: bool) ensures r == is_suffix_of(p@, s@) { s.ends_with(p) }
+#[verifier::external_body]
+pub fn __str_strip_prefix_str<'a>(s: &'a str, p: &str) -> (r: Option<&'a str>)
+    ensures r is Some == is_prefix_of(p@, s@), r is Some ==> r->0@ == s@.subrange(p@.len() as int, s@.len() as int) { s.strip_prefix(p) }
+#[verifier::external_body]
+pub fn __str_strip_suffix_str<'a>(s: &'a str, p: &str) -> (r: Option<&'a str>)
+    ensures r is Some == is_suffix_of(p@, s@), r is Some ==> r->0@ == s@.subrange(0, s@.len() - p@.len()) { s.strip_suffix(p) }
+#[verifier::external_body]
+pub fn __str_strip_suffix_char<'a>(s: &'a str, c: char) -> (r: Option<&'a str>)
+    ensures r is Some == (s@.len() > 0 && s@.last() == c), r is Some ==> r->0@ == s@.drop_last() { s.strip_suffix(c) }
+#[verifier::external_body]
+pub fn __str_strip_prefix_char<'a>(s: &'a str, c: char) -> (r: Option<&'a str>)
+    ensures r is Some == (s@.len() > 0 && s@[0] == c), r is Some ==> r->0@ == s@.skip(1) { s.strip_prefix(c) }
+// whitespace trimming: the exact White_Space set is not modelled; the result is a sub-range of the input
+pub uninterp spec fn str_trim_end(s: Seq<char>) -> Seq<char>;
+pub uninterp spec fn str_trim_start(s: Seq<char>) -> Seq<char>;
+pub uninterp spec fn str_trim(s: Seq<char>) -> Seq<char>;
+pub assume_specification [str::trim_end] (s: &str) -> (r: &str) ensures r@ == str_trim_end(s@), is_prefix_of(r@, s@);
+pub assume_specification [str::trim_start] (s: &str) -> (r: &str) ensures r@ == str_trim_start(s@), is_suffix_of(r@, s@);
+pub assume_specification [str::trim] (s: &str) -> (r: &str) ensures r@ == str_trim(s@), r@.len() <= s@.len();
